@@ -550,12 +550,12 @@ def make_machine(ctx, with_rejects=False, max_ops=10):
             self.sess.reject(bad)
             ctx.count("rejected:" + bad["kind"])
 
-        @rule(strategy=st.sampled_from(gens.STRATEGY_NAMES), n=st.sampled_from([1, 0, -2, 1.9]))
+        @rule(strategy=st.sampled_from(gens.STRATEGY_NAMES), n=st.sampled_from([1, 0, -1, -2]))
         def bad_recreate(self, strategy, n):
             self._bad(dict(kind="recreate_n", strategy=strategy, n=n))
 
         @rule(which=st.sampled_from(["match_target_rule", "match_reference_rule", "match_search"]),
-              name=st.sampled_from(["bogus", "", "Trapezoid", "rect", "nearest"]))
+              name=st.sampled_from(["bogus", "", "no-such-option", "simpson3/8", "median", "42"]))
         def bad_match_name(self, which, name):
             x, _ = self.sess.xy()
             rx, _ = self.sess.ref()
@@ -690,7 +690,7 @@ def make_machine(ctx, with_rejects=False, max_ops=10):
             which = data.draw(st.sampled_from(["interpolate_method", "interpolate_ends", "interpolate_nothing"]))
             if which == "interpolate_method":
                 self._bad(dict(kind=which, n=data.draw(st.integers(2, 9)),
-                               name=data.draw(st.sampled_from(["bogus", "", "Linear", "quadratic", "nearest"]))))
+                               name=data.draw(st.sampled_from(["bogus", "", "no-such-method", "42", "wavelet7"]))))
             elif which == "interpolate_nothing":
                 self._bad(dict(kind=which, method=data.draw(st.sampled_from(["linear", "constant"]))))
             else:
